@@ -137,6 +137,10 @@ def run_engine(ctx, K):
         # the >64-entry edge index sits under every wide node's dependents, inputs and observers: values (C01),
         # ordering (C02), missed runs (C03) and leaks (C06) all go through it
         run_C05_edgeindex(ctx, K)
+    if ctx.pid == "C11":
+        # replacing Var by VarEqual changes no observer value: the handler scenario runs half of its graphs with an
+        # equality var (written mid-pass and written back to the held value by an update handler) against plain-Var expectations
+        run_parscen(ctx, K, only="writes-from-update-handlers")
     if ctx.pid in ("C12", "C03"):
         run_parscen(ctx, K)  # vars created inside bind scopes (queued above height 0) written from node functions
     run_engine_parallel(ctx, K)
@@ -483,14 +487,14 @@ def report_races(ctx, out, where, known_prefix, replay):
     return len(seen)
 
 
-def run_parscen(ctx, K):
+def run_parscen(ctx, K, only=None):
     """hand-written ParallelStabilize scenarios under the race detector"""
     import json as _json
     b = K.go_build(ctx, "parscen", race=True)
     if not b:
         return
     report = os.path.join(ctx.workdir, "parscen.json")
-    args = [b, "-seed", str(ctx.seed), "-rounds", str(tier_n(ctx, 40, 600)), "-json", report, "-claim", ctx.pid]
+    args = [b, "-seed", str(ctx.seed), "-rounds", str(tier_n(ctx, 40, 600)), "-json", report, "-claim", ctx.pid] + (["-only", only] if only else [])
     rc, out = K.sh(args, 3000, cwd=ctx.workdir, env=dict(K.GOENV, GORACE="halt_on_error=0 exitcode=66"))
     open(os.path.join(ctx.workdir, "parscen.log"), "w").write(out)
     rep = None
